@@ -105,7 +105,6 @@ def _state():
         _S["dir"] = common.scratch_dir("vf-c12-")
         _S["cast"] = {}
         _S["nmod"] = 0
-        _S["events"] = None
     return _S
 
 
